@@ -5,7 +5,8 @@ CONSTANTS
   Stateless = FALSE
   MaxSlots = 2
   MaxParked = 2
+  StoreModes = {"nopurge", "down"}
 INVARIANTS MintOnlyOnCreate DeadStaysDead UserBound NoTimeoutDuringPost StatelessNoIds ClosedAndForgotten TimerDiscipline
-PROPERTIES MintStep AtMostOneSession DeadForever ResAlways
+PROPERTIES MintStep AtMostOneSession DeadForever DeleteKills ResAlways
 VIEW MCView
 CHECK_DEADLOCK FALSE
